@@ -61,6 +61,41 @@ impl Filter for JoinFilter {
     }
 }
 
+/// Stable merge sort that tolerates a comparison which is not a total order.
+///
+/// Values of different types are incomparable and treated as equal, which is not
+/// transitive; `slice::sort_by` may panic on such a comparison.
+fn tolerant_sort_by<T: Clone, F: FnMut(&T, &T) -> cmp::Ordering>(v: &mut Vec<T>, mut compare: F) {
+    let n = v.len();
+    let mut src = std::mem::take(v);
+    let mut buf: Vec<T> = Vec::with_capacity(n);
+    let mut width = 1;
+    while width < n {
+        buf.clear();
+        let mut start = 0;
+        while start < n {
+            let mid = cmp::min(start + width, n);
+            let end = cmp::min(start + 2 * width, n);
+            let (mut i, mut j) = (start, mid);
+            while i < mid && j < end {
+                if compare(&src[j], &src[i]) == cmp::Ordering::Less {
+                    buf.push(src[j].clone());
+                    j += 1;
+                } else {
+                    buf.push(src[i].clone());
+                    i += 1;
+                }
+            }
+            buf.extend_from_slice(&src[i..mid]);
+            buf.extend_from_slice(&src[j..end]);
+            start = end;
+        }
+        std::mem::swap(&mut src, &mut buf);
+        width *= 2;
+    }
+    *v = src;
+}
+
 fn nil_safe_compare(a: &dyn ValueView, b: &dyn ValueView) -> Option<cmp::Ordering> {
     if a.is_nil() && b.is_nil() {
         Some(cmp::Ordering::Equal)
@@ -131,7 +166,7 @@ impl Filter for SortFilter {
         let mut sorted: Vec<Value> = input.iter().map(|v| v.to_value()).collect();
         if let Some(property) = &args.property {
             // Using unwrap is ok since all of the elements are objects
-            sorted.sort_by(|a, b| {
+            tolerant_sort_by(&mut sorted, |a, b| {
                 nil_safe_compare(
                     safe_property_getter(a, property),
                     safe_property_getter(b, property),
@@ -139,7 +174,9 @@ impl Filter for SortFilter {
                 .unwrap_or(cmp::Ordering::Equal)
             });
         } else {
-            sorted.sort_by(|a, b| nil_safe_compare(a, b).unwrap_or(cmp::Ordering::Equal));
+            tolerant_sort_by(&mut sorted, |a, b| {
+                nil_safe_compare(a, b).unwrap_or(cmp::Ordering::Equal)
+            });
         }
         Ok(Value::array(sorted))
     }
